@@ -53,8 +53,12 @@ func (c *SingletonClass) DefineMethod(docComment string, flags bitfield.BitFlag1
 
 func (s *SingletonClass) DeepCopyEnv(oldEnv, newEnv *GlobalEnvironment) *SingletonClass {
 	fullConstantName := s.name[1:]
-	if newType, ok := NameToConstantOk(fullConstantName, newEnv); ok {
-		return newType.(*SingletonClass)
+	// the singleton class of an anonymous mixin (`extend where`) has no constant path either
+	anonymous := fullConstantName == ""
+	if !anonymous {
+		if newType, ok := NameToConstantOk(fullConstantName, newEnv); ok {
+			return newType.(*SingletonClass)
+		}
 	}
 
 	newAttachedObject := DeepCopyEnv(s.AttachedObject, oldEnv, newEnv).(Namespace)
@@ -73,10 +77,12 @@ func (s *SingletonClass) DeepCopyEnv(oldEnv, newEnv *GlobalEnvironment) *Singlet
 		},
 	}
 	newSingleton.AttachedObject = newAttachedObject
-	singletonConstantPath := GetConstantPath(fullConstantName)
-	parentNamespace := DeepCopyNamespacePath(singletonConstantPath[:len(singletonConstantPath)-1], oldEnv, newEnv)
-	singletonConstantName := singletonConstantPath[len(singletonConstantPath)-1]
-	parentNamespace.DefineConstant(value.ToSymbol(singletonConstantName), newSingleton)
+	if !anonymous {
+		singletonConstantPath := GetConstantPath(fullConstantName)
+		parentNamespace := DeepCopyNamespacePath(singletonConstantPath[:len(singletonConstantPath)-1], oldEnv, newEnv)
+		singletonConstantName := singletonConstantPath[len(singletonConstantPath)-1]
+		parentNamespace.DefineConstant(value.ToSymbol(singletonConstantName), newSingleton)
+	}
 
 	newSingleton.methods = MethodsDeepCopyEnv(s.methods, oldEnv, newEnv)
 	newSingleton.instanceVariables = InstanceVariablesDeepCopyEnv(s.instanceVariables, oldEnv, newEnv)
